@@ -12,7 +12,7 @@ use std::str::FromStr;
 
 pub fn lanes() -> Vec<Lane> {
     vec![
-        Lane { name: "set-get", count: |c| rows().len() as u64 * 6 * if c.thorough() { 300 } else { 40 }, run: setget_lane },
+        Lane { name: "set-get", count: |c| rows().len() as u64 * 7 * if c.thorough() { 300 } else { 40 }, run: setget_lane },
         Lane { name: "sequences", count: |c| if c.thorough() { 400_000 } else { 50_000 }, run: sequences_lane },
         Lane { name: "read-side", count: |_| reads().len() as u64, run: read_lane },
         Lane { name: "selection", count: |c| if c.thorough() { 100_000 } else { 8_000 }, run: selection_lane },
@@ -553,7 +553,7 @@ fn other_rows() -> Vec<Row> {
 
 // ---------------------------------------------------------------- the runner
 
-const STATES: [&str; 6] = ["absent", "present-last", "present-with-comments", "between-others", "first", "absent-with-others"];
+const STATES: [&str; 7] = ["absent", "present-last", "present-with-comments", "between-others", "first", "absent-with-others", "absent-after-unterminated-comment"];
 
 fn write_field(name: &str, raw: &str) -> String {
     let mut s = format!("{}:", name);
@@ -586,6 +586,8 @@ fn prior(row: &Row, state: usize) -> (String, bool) {
     if lead_is_field {
         // the field exists by construction: vary what surrounds it
         let body = match state {
+            // (the field is the lead field: it cannot be absent; the document ends in an unterminated comment)
+            6 => format!("{}{}# last words", lead, o1),
             0 | 1 => lead.to_string(),
             // (the comment stands inside the paragraph: a view that owns a single paragraph has no file-level comments)
             2 => format!("{}# before\n{}# after\n{}", o2, lead, o1),
@@ -599,7 +601,10 @@ fn prior(row: &Row, state: usize) -> (String, bool) {
     // a long description can only be set next to a short one (the field's first line)
     let state = if state == 4 && row.view == "copyright::Header" { 3 } else { state };
     let state = if row.name == "long_description" && (state == 0 || state == 5) { 1 } else { state };
+    let state = if row.name == "long_description" && state == 6 { 1 } else { state };
     let (body, present) = match state {
+        // the file ends in a comment line without final newline
+        6 => (format!("{}{}# last words", lead, o1), false),
         0 => (lead.to_string(), false),
         1 => (format!("{}{}", lead, f), true),
         2 => (format!("{}{}# before the field\n{}# after the field\n{}", lead, o1, f, o2), true),
@@ -683,7 +688,10 @@ fn check_row(ctx: &mut Ctx, row: &Row, text: &str, r: &mut Rng, shape: &str) -> 
         let lastp = sb.iter().filter_map(|s| if let Seg::Field(p, _, _) = s { Some(*p) } else { None }).max().unwrap_or(0);
         let db: Vec<(usize, usize)> = drop(&sb).into_iter().filter(|(p, _)| *p == lastp).collect();
         let da: Vec<(usize, usize)> = drop(&sa).into_iter().filter(|(p, _)| *p == lastp).collect();
-        if remainder(&sb, &db) != remainder(&sa, &da) {
+        // (a line feed supplied at a formerly unterminated end of the text is the one tolerated difference, as in C04)
+        let (rb, ra) = (remainder(&sb, &db), remainder(&sa, &da));
+        let terminated = !text.ends_with('\n') && ra == format!("{}\n", rb);
+        if rb != ra && !terminated {
             fail(ctx, "bytes-outside-field-changed", json!({"prior": text, "after": clip(&after)}));
             return None;
         }
@@ -696,7 +704,7 @@ fn check_row(ctx: &mut Ctx, row: &Row, text: &str, r: &mut Rng, shape: &str) -> 
 fn setget_lane(ctx: &mut Ctx, idx: u64) {
     let rs = rows();
     let row = &rs[(idx % rs.len() as u64) as usize];
-    let state = ((idx / rs.len() as u64) % 6) as usize;
+    let state = ((idx / rs.len() as u64) % 7) as usize;
     let mut r = ctx.rng();
     let (text, present) = prior(row, state);
     let shape = format!("state:{}", STATES[state]);
